@@ -7,6 +7,7 @@ package main
 import (
 	"fmt"
 	"go/token"
+	"go/types"
 	"strings"
 
 	"golang.org/x/tools/go/ssa"
@@ -527,5 +528,322 @@ func ruleWGDiscipline(c *Check, a *Analysis, rule string) {
 			})
 		}
 		c.Ob(rule, "(*Server).handleRequest#defers wg.Done when given a wait group", hr.Pos(), ok, ifs(!ok, "the worker does not defer wg.Done() (first thing, when wg != nil): a handler that was counted is never discounted and the connection's teardown waits forever"))
+	}
+}
+
+// ruleSchedNil (C05/C08/C20): a scheduler that exists only in some modes is used only under a non-nil test.
+func ruleSchedNil(c *Check, a *Analysis, rule string) {
+	p := c.P
+	c.Rule(rule, "every Schedule/Close invoked on a scheduler held in a field, parameter or captured variable (nil in some modes) is guarded by a non-nil test of that very value, unless that value is assigned a fresh scheduler.New on every path before", 6)
+	sc := siteCounter{}
+	for _, fn := range p.Fns {
+		eachInstr(fn, func(in ssa.Instruction) {
+			ci, ok := in.(ssa.CallInstruction)
+			if !ok || !ci.Common().IsInvoke() {
+				return
+			}
+			m := ci.Common().Method.Name()
+			if (m != "Schedule" && m != "Close") || !strings.HasSuffix(ci.Common().Value.Type().String(), "scheduler.Scheduler") {
+				return
+			}
+			v := ci.Common().Value
+			// fresh on all origins → fine
+			allFresh := true
+			for _, o := range p.origins(v) {
+				cc, isC := p.canon(o).(*ssa.Call)
+				if !isC || calleeName(cc) != "scheduler.New" {
+					allFresh = false
+				}
+			}
+			if allFresh {
+				c.Ob(rule, sc.key(fn, m+" on fresh scheduler"), p.InstrPos(in), true, "")
+				return
+			}
+			g := false
+			if fr, _, isF := fieldOfLoad(p.canon(v)); isF {
+				g, _ = p.guardedBy(in, negate(matchFieldNilAny(p, fr.Field)))
+			}
+			if !g {
+				g, _ = p.guardedBy(in, negate(matchValueNil(p, v)))
+			}
+			if !g {
+				// a field that every constructor of the struct fills with a fresh scheduler
+				g = schedEstablished(p, fn, in, v)
+				if fr, _, isF := fieldOfLoad(p.canon(v)); g && isF {
+					if onlyNil, _ := p.guardedBy(in, matchFieldNilAny(p, fr.Field)); onlyNil {
+						c.Ob(rule, sc.key(fn, m+" not confined to the nil edge"), p.InstrPos(in), false, m+" on "+describe(v)+" is reachable only on the edge on which the scheduler was tested nil: it never runs for a live scheduler (its goroutine is never stopped / the task is never queued)")
+						return
+					}
+				}
+			}
+			c.Ob(rule, sc.key(fn, m+" under non-nil test"), p.InstrPos(in), g, ifs(!g, m+" is invoked on "+describe(v)+" without a test that it is non-nil on this path: in the modes in which it is not created this is a nil-interface call (panic)"))
+		})
+	}
+}
+
+// schedEstablished: the value is loaded from a field that every allocation of its struct
+// in package rpc initialises with a fresh scheduler.New, and that is never stored otherwise.
+func schedEstablished(p *Prog, fn *ssa.Function, at ssa.Instruction, v ssa.Value) bool {
+	fr, _, isF := fieldOfLoad(p.canon(v))
+	if !isF {
+		return false
+	}
+	allocs, inited := 0, 0
+	for _, f := range p.Fns {
+		eachInstr(f, func(in ssa.Instruction) {
+			al, ok := in.(*ssa.Alloc)
+			if !ok || pointeeName(al) != fr.Struct {
+				return
+			}
+			if _, isStruct := al.Type().Underlying().(*types.Pointer).Elem().Underlying().(*types.Struct); !isStruct {
+				return // a pointer-typed variable cell, not an object
+			}
+			allocs++
+			for _, st := range p.fieldStoresIn(f, fr.Struct, fr.Field) {
+				_, base, _ := fieldOfAddr(st.Addr)
+				if cc, ok := p.canon(st.Val).(*ssa.Call); ok && calleeName(cc) == "scheduler.New" && p.canon(base) == ssa.Value(al) {
+					inited++
+					return
+				}
+			}
+		})
+	}
+	if allocs == 0 || inited != allocs {
+		return false
+	}
+	for _, s := range p.storesToField(fr.Struct, fr.Field) {
+		if cc, ok := p.canon(s.Instr.(*ssa.Store).Val).(*ssa.Call); !ok || calleeName(cc) != "scheduler.New" {
+			return false
+		}
+	}
+	return true
+}
+
+// ruleStreamEvent (C09): what is queued on a stream carries the message.
+func ruleStreamEvent(c *Check, a *Analysis, rule string) {
+	p := c.P
+	c.Rule(rule, "every event handed to stream.trigger is a fresh getEvent() whose Value (and, on the client, Error) was stored before the hand-off", 2)
+	sc := siteCounter{}
+	n := 0
+	for _, fn := range p.Fns {
+		for _, tr := range callsIn(fn, "(*stream).trigger") {
+			n++
+			e := tr.Common().Args[1]
+			fresh := false
+			for _, o := range p.origins(e) {
+				if cc, ok := p.canon(o).(*ssa.Call); ok && calleeName(cc) == "getEvent" {
+					fresh = true
+				}
+			}
+			val := false
+			for _, st := range p.fieldStoresIn(fn, "event", "Value") {
+				_, base, _ := fieldOfAddr(st.Addr)
+				if p.canon(base) == p.canon(e) && !nilConst(st.Val) && p.dominatesInstr(st, tr.(ssa.Instruction)) {
+					val = true
+				}
+			}
+			ok := fresh && val
+			c.Ob(rule, sc.key(fn, "event carries the message before trigger"), p.InstrPos(tr), ok, ifs(!ok, "the event queued on the stream does not carry the message bytes at the time it is handed over (Value stored before trigger, on a fresh event): the message content is lost or written while the reader may already consume it"))
+			// an Error field stored in the function must be stored before the hand-off as well
+			for _, st := range p.fieldStoresIn(fn, "event", "Error") {
+				_, base, _ := fieldOfAddr(st.Addr)
+				if p.canon(base) == p.canon(e) {
+					d := p.dominatesInstr(st, tr.(ssa.Instruction))
+					c.Ob(rule, sc.key(fn, "event error before trigger"), p.InstrPos(st), d, ifs(!d, "the event's Error is stored after the event was handed to the reader"))
+				}
+			}
+		}
+	}
+	// the client forwards the call's error to the stream reader
+	if st := p.Fn("(*Call).streaming"); st != nil {
+		ok := false
+		for _, s := range p.fieldStoresIn(st, "event", "Error") {
+			if isLoadOf(p.canon(s.Val), "Call", "Error") {
+				ok = true
+			}
+		}
+		c.Ob(rule, "(*Call).streaming#forwards Call.Error", st.Pos(), ok, ifs(!ok, "the client's stream delivery drops the call's error: a failed stream message looks like an empty success"))
+	}
+	if n == 0 {
+		c.Undecided(rule, "no stream.trigger call found")
+	}
+}
+
+// ruleStreamWrite (C09): client stream writes carry their message and a body.
+func ruleStreamWrite(c *Check, a *Analysis, rule string) {
+	p := c.P
+	c.Rule(rule, "the client's stream write closure stores its message into the Call's Args before conn.write; NewStream clears NoRequest on the stream's upgrade object on every path after the open acknowledgement (stream messages carry a body)", 2)
+	ns := p.Fn("(*Conn).NewStream")
+	if ns == nil {
+		c.Undecided(rule, "NewStream not found")
+		return
+	}
+	okArgs := false
+	for _, f := range withClosures(ns) {
+		if f == ns || len(f.Params) == 0 {
+			continue
+		}
+		for _, w := range callsIn(f, "(*Conn).write") {
+			callArg := p.canon(w.Common().Args[1])
+			for _, st := range p.fieldStoresIn(f, "Call", "Args") {
+				_, base, _ := fieldOfAddr(st.Addr)
+				if p.canon(base) != callArg || !p.dominatesInstr(st, w.(ssa.Instruction)) {
+					continue
+				}
+				for _, o := range p.origins(st.Val) {
+					if o == ssa.Value(f.Params[0]) {
+						okArgs = true
+					}
+				}
+			}
+		}
+	}
+	c.Ob(rule, "(*Conn).NewStream#write closure stores its message into Call.Args before conn.write", ns.Pos(), okArgs, ifs(!okArgs, "the stream write closure does not attach its message argument to the call it sends: the message content is lost"))
+	// NoRequest cleared after the acknowledgement
+	var recv ssa.Instruction
+	eachInstr(ns, func(in ssa.Instruction) {
+		if u, ok := in.(*ssa.UnOp); ok && u.Op == token.ARROW && recv == nil {
+			recv = in
+		}
+	})
+	if recv == nil {
+		c.Undecided(rule, "NewStream does not wait for the open acknowledgement")
+		return
+	}
+	isClear := func(x ssa.Instruction) bool {
+		st, ok := x.(*ssa.Store)
+		if !ok {
+			return false
+		}
+		fr, _, okf := fieldOfAddr(st.Addr)
+		k, isK := constInt(st.Val)
+		return okf && fr.Struct == "upgrade" && fr.Field == "NoRequest" && isK && k == 0
+	}
+	_, tr, okp := p.mustPass(ns, recv, isClear)
+	c.Ob(rule, "(*Conn).NewStream#NoRequest cleared after the acknowledgement", p.InstrPos(recv), okp, ifs(!okp, "a path from the open acknowledgement to the return of the stream leaves NoRequest set ("+p.lineTrail(tr)+"): every stream message is sent without a body"))
+}
+
+// rulePollEOF (C10/C20): in poll mode the per-connection teardown runs on either EOF error, exactly once.
+func rulePollEOF(c *Check, a *Analysis, rule string) {
+	p := c.P
+	c.Rule(rule, "in the poll-mode serve callback each of err == io.EOF and err == io.ErrUnexpectedEOF leads on every path to the compare-and-swap that elects the teardown, and the teardown (codec Close) runs only on the winning edge", 3)
+	isEOF := func(name string) condMatch {
+		return func(cond ssa.Value) (bool, bool) {
+			b, ok := cond.(*ssa.BinOp)
+			if !ok || (b.Op != token.EQL && b.Op != token.NEQ) {
+				return false, false
+			}
+			for _, side := range []ssa.Value{b.X, b.Y} {
+				if u, ok := p.canon(side).(*ssa.UnOp); ok && u.Op == token.MUL {
+					if g, ok := u.X.(*ssa.Global); ok && g.Pkg != nil && g.Pkg.Pkg.Path() == "io" && g.Name() == name {
+						return true, b.Op == token.EQL
+					}
+				}
+			}
+			return false, false
+		}
+	}
+	n := 0
+	sc := siteCounter{}
+	for _, fn := range p.Fns {
+		if fn.Parent() == nil || fname(topParent(fn)) != "(*Server).listen" {
+			continue
+		}
+		var cas []ssa.Instruction
+		eachInstr(fn, func(in ssa.Instruction) {
+			if cc, ok := in.(*ssa.Call); ok && strings.HasPrefix(calleeName(cc), "sync/atomic.CompareAndSwap") {
+				if fr, _, okf := fieldOfAddr(cc.Call.Args[0]); okf && fr.Struct == "ServerContext" && fr.Field == "closed" {
+					cas = append(cas, in)
+				}
+			}
+		})
+		if len(cas) == 0 {
+			continue
+		}
+		isCAS := func(x ssa.Instruction) bool {
+			for _, k := range cas {
+				if k == x {
+					return true
+				}
+			}
+			return false
+		}
+		for _, name := range []string{"EOF", "ErrUnexpectedEOF"} {
+			edges, k := p.guardEdges(fn, isEOF(name))
+			if k == 0 {
+				c.Ob(rule, sc.key(fn, "io."+name+" tested"), fn.Pos(), false, "the poll callback does not test the read error against io."+name+": a closed connection is never torn down")
+				continue
+			}
+			for e := range edges {
+				n++
+				_, tr, miss := p.reachFromBlock(fn, e.to, isReturnLike, isCAS, nil)
+				c.Ob(rule, sc.key(fn, "io."+name+" ⇒ teardown election"), p.InstrPos(e.to.Instrs[0]), !miss, ifs(miss, "with err == io."+name+" the callback can return without electing the teardown ("+p.lineTrail(tr)+"): the connection's schedulers, streams and codec are never released"))
+			}
+		}
+		for _, cl := range invokesIn(fn, "ServerCodec", "Close") {
+			n++
+			g, _ := p.guardedBy(cl.(ssa.Instruction), matchCAS(p))
+			c.Ob(rule, sc.key(fn, "teardown only on the winning edge"), p.InstrPos(cl), g, ifs(!g, "the poll-mode teardown is not confined to the edge on which the compare-and-swap succeeded: it runs twice, or never"))
+		}
+	}
+	if n == 0 {
+		c.Undecided(rule, "poll-mode teardown not found")
+	}
+}
+
+// ruleSharedLocalMap (C03/C20): a map variable of Listen that its goroutines share is only
+// touched under Server.mutex.
+func ruleSharedLocalMap(c *Check, a *Analysis, rule string) {
+	p := c.P
+	ls := a.Locks()
+	lis := p.Fn("(*Server).listen")
+	if lis == nil {
+		return
+	}
+	sc := siteCounter{}
+	n := 0
+	for _, fn := range withClosures(lis) {
+		eachInstr(fn, func(in ssa.Instruction) {
+			u, ok := in.(*ssa.UnOp)
+			if !ok || u.Op != token.MUL {
+				return
+			}
+			cell := p.localCell(u.X)
+			if cell == nil || cell.Parent() != lis {
+				return
+			}
+			if _, isMap := u.Type().Underlying().(*types.Map); !isMap || u.Referrers() == nil {
+				return
+			}
+			// only cells shared with a closure
+			shared := false
+			if cell.Referrers() != nil {
+				for _, r := range *cell.Referrers() {
+					if _, ok := r.(*ssa.MakeClosure); ok {
+						shared = true
+					}
+				}
+			}
+			if !shared {
+				return
+			}
+			for _, r := range *u.Referrers() {
+				switch x := r.(type) {
+				case *ssa.MapUpdate, *ssa.Lookup, *ssa.Range:
+				case *ssa.Call:
+					if n := calleeName(x); n != "builtin delete" && n != "builtin len" {
+						continue
+					}
+				default:
+					continue
+				}
+				n++
+				held := ls.Held(r, "Server.mutex")
+				c.Ob(rule, sc.key(fn, "shared map "+cell.Comment+" under Server.mutex"), p.InstrPos(r), held, ifs(!held, "the map variable "+cell.Comment+" of Listen is shared by the accept goroutines, the poll callbacks and the deferred clean-up, and is touched here without Server.mutex: concurrent map access is a fatal error"))
+			}
+		})
+	}
+	if n < 4 {
+		c.Undecided(rule, fmt.Sprintf("expected at least 4 accesses to Listen's shared codec map, found %d", n))
 	}
 }
